@@ -385,8 +385,8 @@ func (h *vLogHandler) Handle(_ context.Context, r slog.Record) error {
 	s := fmt.Sprintf("LIB[%s] %s %s", h.name, r.Level, r.Message)
 	r.Attrs(func(a slog.Attr) bool {
 		v := a.Value.String()
-		if len(v) > 80 {
-			v = v[:80]
+		if len(v) > 600 {
+			v = v[:600]
 		}
 		s += fmt.Sprintf(" %s=%s", a.Key, v)
 		return true
